@@ -1220,6 +1220,15 @@ def data_faults(T, cols):
                 c = [list(x) for x in cols]
                 c[j][r] = bv
                 yield "cell_unparseable", {"ftype": TCODE[t], "bad": bn, "row": "first" if r == 0 else "last"}, c, False
+        # an unparseable cell that COMPARES EQUAL (==, same hash) to a valid cell earlier in the
+        # same column (seed C16h: per-cell validation memoised on the value)
+        if t == "i" and len(cols[0]) >= 2:
+            c = [list(x) for x in cols]
+            c[j][0], c[j][-1] = 1, True
+            yield "cell_unparseable", {"ftype": TCODE[t], "bad": "bool_after_equal_int", "row": "last"}, c, False
+            c = [list(x) for x in cols]
+            c[j][0], c[j][-1] = 0, False
+            yield "cell_unparseable", {"ftype": TCODE[t], "bad": "bool_after_equal_int0", "row": "last"}, c, False
 
 
 def file_faults(T, schema, text):
